@@ -71,7 +71,7 @@ func strClass(want, got string) string {
 		r, n := utf8.DecodeRuneInString(want[i:])
 		enc := want[i : i+n]
 		if r == utf8.RuneError && n == 1 {
-			enc = "�"
+			enc = "\uFFFD"
 		}
 		if !strings.HasPrefix(got[j:], enc) {
 			break
